@@ -127,6 +127,16 @@ func (sb *schemaBuilder) getStructObjectFields(typ reflect.Type) (*graphql.Input
 		return nil, nil, fmt.Errorf("expected struct but received type %s", typ.Kind())
 	}
 
+	// Two struct types of one name (of different packages) would be advertised
+	// as one input object, with the fields of whichever is seen first.
+	if argType.Name != "" {
+		for other, cached := range sb.typeCache {
+			if cached.argType != nil && cached.argType.Name == argType.Name && other != typ {
+				return nil, nil, fmt.Errorf("duplicate name %s: seen both %v and %v", argType.Name, other, typ)
+			}
+		}
+	}
+
 	// Cache type information ahead of time to catch self-reference
 	sb.typeCache[typ] = cachedType{argType, fields}
 
